@@ -290,7 +290,14 @@ impl ConnectionState {
                     send(&tx, ConsumerMessage::ServerCancelled)?;
                 }
                 if !cancel.nowait {
-                    inner.push_method(n, AmqpBasic::CancelOk(CancelOk { consumer_tag }));
+                    let cancel_ok = AmqpBasic::CancelOk(CancelOk { consumer_tag });
+                    if slot.content_in_progress {
+                        // The channel's handle is part-way through a publish; our reply
+                        // must not land between that publish's frames.
+                        slot.deferred_frames.push_method(n, cancel_ok);
+                    } else {
+                        inner.push_method(n, cancel_ok);
+                    }
                 }
             }
             // Server ack for client-initiated consumer cancel.
